@@ -71,6 +71,52 @@ func GenDoc(r *Rng, maxNodes int) DocSpec {
 	return genDoc(r, maxNodes)
 }
 
+// GenWideDoc draws a document with one very wide level (17-70 siblings under
+// one parent, a few of them with children of their own): sizes at which
+// buffers pre-sized to 8, 16, 32 or 64 elements have to grow.
+func GenWideDoc(r *Rng) DocSpec {
+	top := &NodeSpec{K: "e", N: r.Pick(ElemNames)}
+	n := []int{17, 18, 33, 34, 65, 70, 20, 40}[r.Intn(8)]
+	names := []string{r.Pick(ElemNames), r.Pick(ElemNames)}
+	for i := 0; i < n; i++ {
+		c := &NodeSpec{K: "e", N: names[r.Intn(2)]}
+		if r.Chance(1, 2) {
+			c.A = append(c.A, [2]string{r.Pick(AttrNames), r.Pick(Values)})
+		}
+		if r.Chance(1, 6) {
+			for k := r.Range(1, 3); k > 0; k-- {
+				c.C = append(c.C, &NodeSpec{K: "e", N: r.Pick(ElemNames)})
+			}
+		}
+		if r.Chance(1, 5) {
+			c.C = append(c.C, &NodeSpec{K: "t", V: r.Pick(Values)})
+		}
+		top.C = append(top.C, c)
+	}
+	return DocSpec{C: []*NodeSpec{top}}
+}
+
+// GenDeepDoc draws a chain 7-12 elements deep with a little fan-out.
+func GenDeepDoc(r *Rng) DocSpec {
+	top := &NodeSpec{K: "e", N: r.Pick(ElemNames)}
+	cur := top
+	for d := r.Range(7, 12); d > 0; d-- {
+		c := &NodeSpec{K: "e", N: r.Pick(ElemNames[:4])}
+		if r.Chance(1, 3) {
+			c.A = append(c.A, [2]string{r.Pick(AttrNames), r.Pick(Values)})
+		}
+		cur.C = append(cur.C, c)
+		if r.Chance(1, 3) {
+			cur.C = append(cur.C, &NodeSpec{K: "e", N: r.Pick(ElemNames[:4])})
+		}
+		if r.Chance(1, 4) {
+			cur.C = append(cur.C, &NodeSpec{K: "t", V: r.Pick(Values)})
+		}
+		cur = c
+	}
+	return DocSpec{C: []*NodeSpec{top}}
+}
+
 func genDoc(r *Rng, maxNodes int) DocSpec {
 	if maxNodes < 3 {
 		maxNodes = 3
